@@ -53,7 +53,7 @@ def _cfg1d(md, nmax):
     def build(me, rough, num_r, num_s, st_r, st_s, fl, bc, src):
         return dict(model=md, mesh=me, num=(num_r if rough else num_s), state=(st_r if rough else st_s), flux=fl, bckind=bc[0], bcL=bc[1], bcR=bc[2], source=src)
     fmd = md if md["name"] != "nozzle" else dict(name="euler1d")
-    return st.builds(build, gen.mesh_any(2, nmax), st.booleans(), gen.num_robust(), gen.num_any(),
+    return st.builds(build, gen.mesh_any_or_big(2, nmax), st.booleans(), gen.num_robust(), gen.num_any(),
                      gen.state_for(md, True, lnrange=1.5, machmax=2.0), gen.state_for(md, False, lnrange=1.0, machmax=1.5, smooth_amp=0.05),
                      st.sampled_from(cases.flux_names(fmd)), _bc(md), _src(md))
 
